@@ -215,6 +215,46 @@ check(
     spec="ClientLoop",
 )
 
+check(
+    "C03",
+    "TLC model-checks BulkPartition.tla, a transcription of bounds, number_of_bulks, create_readers (corpus staggering, round-robin over files), Slice/reader chunking, _init_internal_params "
+    "(min..max span, ceil of the percentage) and GenerateActionMetaData, over every file layout x client count x contiguous split into co-located groups x bulk size x percentage x either offset "
+    "at a .5 tie x every order in which co-located clients call params() on the shared source: ExactCover, ContiguousInOrder, BulkBound, Paired, PctStop, ConflictsLocal, SeekCorrect. TLC "
+    "-simulate behaviours are executed on the real code with real files (multi-byte text, with/without action-and-meta-data lines), real offset tables, real Track/Task and BulkIndexParamSource "
+    "via loader.operation_parameters, partition() through the real driver.schedule_for, params() in TLC's order, every parameter dict through the real runner.BulkIndex to a stand-in _bulk "
+    "endpoint; groups are also taken from the real Allocator + calculate_worker_assignments; files > 50,000 lines exercise the offset-table path; bounds() chains up to 10^12 documents. All "
+    "recordings are validated by TLC against TraceBulkPartition.tla (L1 clauses on the recorded bulks, L2 = NextBulk step).",
+    "Model bounds: <= 3 files in <= 2 corpora, docs <= 7, N <= 4, <= 3 groups, bulk 1..3, percentages 100/50/25/12.5; simulation/random wider. Totals 10^9..10^12 at bounds() level only "
+    "(two 10^6 limbs). Non-contiguous client groups are shown not to be produced by the real allocator (re-derived on every run); a hand-made one is flagged.",
+    "TLA+ spec + TLC exhaustive checking; replay of TLC behaviours and states on the real code with real files; TLC trace validation",
+    spec="BulkPartition",
+)
+check(
+    "C10",
+    "TLC explores a builder state machine over abstract track files (TrackModel.tla: three challenge forms, parallel elements with defaults/cap/completed-by, operations by name/type/inline, "
+    "corpora with indices | data streams, Jinja parameters with defaults, supplied --track-params, rally.collect parts, schema-level defects at every position) and checks that the transcription "
+    "of the loader satisfies Fidelity / ValidLoads / Rejection w.r.t. declarative rules and the expected Track. Reachable files and the final files of TLC -simulate behaviours are rendered into "
+    "real track directories and loaded by the real TrackFileReader.read (10% through load_track); the Track is projected back and every recorded load, plus seeded random files and the "
+    "operation-type registry table, is validated by TLC against TraceTrackModel.tla (L1 clauses, L2 = transcription incl. error class).",
+    "Bounds: <= 2-3 challenges, 3-4 elements, 3 parallel tasks, small alphabets exhaustively, wide ones by simulation/random. Jinja2, json, jsonschema trusted; only rendered constructs "
+    "exercised. Known finding F13 (iterations together with time-period is loaded) is re-observed and listed.",
+    "TLA+ builder spec + TLC exhaustive exploration; every state a generated implementation test; TLC validation of recorded loads",
+    spec="TrackModel",
+)
+check(
+    "C18",
+    "TLC model-checks ReqContext.tla (asyncio tasks holding a context-variable pointer that create_task copies shallowly; one action per critical section of client/context.py: Enter, "
+    "WireStart, WireEnd per chunk, Exit with propagation, Spawn, Join) over every program within the bounds, every interleaving and completion order, for SpanStart, SpanEnd, LeafExact and "
+    "NoLeak; the as-written variant must violate them in the model and its counterexamples are executed on the real code. TLC -simulate behaviours are executed step by step by scripted "
+    "coroutines on the real RequestContextHolder/Manager under a virtual clock, and projected onto composite requests run by the real AsyncExecutor -> Composite -> RequestTiming -> runners "
+    "against a scripted fake ES with all clients in one loop. Every recording plus seeded random cases is validated by TLC against TraceReqContext.tla.",
+    "Exhaustive bounds: <= 2 clients, <= 4 tasks, <= 4 contexts, depth <= 3, <= 3 concurrent children, <= 4 wire requests, <= 2 extra chunks (split over three cfgs); simulation wider. "
+    "Nothing is claimed for a context without any wire request.",
+    "TLA+ spec + TLC exhaustive checking under a rank view; replay of TLC behaviours and counterexamples into real coroutines and the real AsyncExecutor/Composite; TLC trace validation",
+    engine="tlc+vclock",
+    spec="ReqContext",
+)
+
 NOT_YET = "check under construction in this round (specification planned in DESIGN.md §4); not claimed yet"
 
 
